@@ -201,6 +201,66 @@ class Model:
                 out.append(('OK', dec(l.split(), 0)[0]))
         return out
 
+    def run_vdocs(self, docs, floats):
+        """documents WITH text and attributes through the extracted DocValTables.vrun.
+        docs: nested {'tag', 'text' (str), 'attrs' [[name, text]], 'kids'}; floats: {text: None | (kind, num, den, repr)} = what Python's float() made of
+        every text / attribute value occurring in the documents.  Returns per doc ('NOMACHINE', tag) | (premise, 'NOPARSE') | (premise, 'NOEMIT') |
+        (premise, 'OK', nested [tag, text, [[name, value]], kids])"""
+        def cps(s):
+            return ','.join(str(ord(c)) for c in s) or '-'
+
+        def uncps(t):
+            return '' if t == '-' else ''.join(chr(int(x)) for x in t.split(','))
+
+        def texts(d, acc):
+            acc.add(d['text'].strip())
+            for a in d['attrs']:
+                acc.add(a[1])
+                acc.add(a[1].strip())
+            for k in d['kids']:
+                texts(k, acc)
+
+        def enc(d):
+            return '%d %s %d %s( %s)' % (self.sym[d['tag']], cps(d['text']), len(d['attrs']), ''.join('%s %s ' % (cps(a[0]), cps(a[1])) for a in d['attrs']),
+                                         ''.join(enc(k) + ' ' for k in d['kids']))
+
+        def dec(toks, i):
+            tag = self.name_of[int(toks[i])]
+            text = uncps(toks[i + 1])
+            na = int(toks[i + 2])
+            i += 3
+            attrs = []
+            for _ in range(na):
+                attrs.append([uncps(toks[i]), uncps(toks[i + 1])])
+                i += 2
+            i += 1
+            kids = []
+            while toks[i] != ')':
+                k, i = dec(toks, i)
+                kids.append(k)
+            return [tag, text, attrs, kids], i + 1
+        lines = []
+        for d in docs:
+            ts = set()
+            texts(d, ts)
+            ft = []
+            for t in sorted(ts):
+                f = floats.get(t)
+                ft.append('%s %s' % (cps(t), 'x' if f is None else 'f:%s:%d:%d:%s' % (f[0], f[1], f[2], cps(f[3]))))
+            lines.append('vdoc %d %s %s' % (len(ft), ' '.join(ft), enc(d)))
+        out = []
+        for l in self.raw(lines):
+            if l.startswith('NOMACHINE'):
+                out.append(('NOMACHINE', self.name_of[int(l.split()[1])]))
+                continue
+            toks = l.split()
+            prem = toks[0] == '1'
+            if toks[1] in ('NOPARSE', 'NOEMIT'):
+                out.append((prem, toks[1]))
+            else:
+                out.append((prem, 'OK', dec(toks, 2)[0]))
+        return out
+
     def run_bag(self, cases):
         lines = ['bag %d %s' % (self.idx[c['type']], ' '.join(self.enc_op(o) for o in c['ops'])) for c in cases]
         out = []
